@@ -6,6 +6,8 @@ Layers: (A) catalog sweep with adversarial input pools, (B) Hypothesis-generated
 
 from __future__ import annotations
 
+import os
+
 import numpy as np
 
 from vf.core import Acc, derive_seed, digest
@@ -297,10 +299,32 @@ def check_catalog_case(cid, modes, acc=None, double=False):
         if acc:
             acc.tally("catalog_status", "skip_numeric_validation")
         return out
+    # data-dependent loops may not terminate (or run for ages) on inputs far from the authors' range, and an eager JAX
+    # while_loop cannot be interrupted: such callables only see the benign pool
+    try:
+        import jax
+
+        jp = str(jax.make_jaxpr(lambda *a: p.fn(*a, **p.params))(*[jax.ShapeDtypeStruct(tuple(3 if isinstance(d, str) else d for d in sh_), dt_)
+                                                                   for sh_, dt_ in zip(p.shapes, p.dtypes)]))
+        has_while = " while[" in jp or "while_loop" in jp
+    except Exception:
+        has_while = False
+    if has_while:
+        modes = [3]
+        if acc:
+            acc.tally("catalog_status", "data_dependent_loop(benign_inputs_only)")
+    if "random" in str(case["context"]).lower():
+        # sampling ops are only comparable on the authors' degenerate inputs (p in {0,1}, fixed keys): other values draw from different RNG streams
+        modes = [m for m in modes if m == 0] or [0]
     feed_sets = []
+    author_int_range = "shift" in str(case["component"]).lower()  # shift counts outside [0, bits) are implementation-defined in JAX/XLA
     for mode in modes:
         rng = np.random.default_rng(1000 * mode + 7)
-        feed_sets.append((mode, catalog.feeds(p, rng, mode)))
+        fv = catalog.feeds(p, rng, mode)
+        if author_int_range and p.base is None:
+            fv = [catalog.draw_value(np.random.default_rng(1000 * mode + 11 + i), sh_, dt_, 0) if np.dtype(dt_).kind in "iu" else f
+                  for i, (f, sh_, dt_) in enumerate(zip(fv, p.shapes, p.dtypes))]
+        feed_sets.append((mode, fv))
     for k, (label, fv) in enumerate(catalog.structural_variants(p)):
         feed_sets.append((100 + k, fv))
     for mode, fds in feed_sets:
@@ -316,7 +340,8 @@ def check_catalog_case(cid, modes, acc=None, double=False):
         except Exception as e:
             msg = str(e)
             wide_int = any(np.asarray(f).dtype.kind in "iu" for f in fds) and mode in (1, 2) and p.base is None
-            if wide_int and ("out of data bounds" in msg or "out of range" in msg or "out of bounds" in msg or "indices" in msg):
+            index_node = any(k in msg for k in ("Gather", "Scatter", "OneHot", "Slice", "indices", "out of data bounds", "out of range", "out of bounds"))
+            if wide_int and index_node:
                 # an index beyond the extent: JAX clamps by convention, the callable's domain is [0, extent)
                 if acc:
                     acc.tally("catalog_status", "index_out_of_domain")
@@ -372,6 +397,9 @@ def _work_catalog(sh, acc):
             acc.tally("catalog_status", "not_reached_within_budget", len(sh["ids"]) - k)
             break
         t0 = time.monotonic()
+        if os.environ.get("VERIF_PROGRESS"):  # debugging aid: which case a straggling worker is in
+            with open(f"{os.environ['VERIF_PROGRESS']}.cur.{os.getpid()}", "w") as fh:
+                fh.write(f"{cid} double={sh.get('double', False)}\n")
         try:
             with core.time_limit(sh.get("case_limit_s", 120)):
                 vs = check_catalog_case(cid, sh["modes"], acc, double=sh.get("double", False))
